@@ -32,6 +32,11 @@ func readRules(input io.Reader) ([]rule, error) {
 		}
 		// Trim spaces
 		pattern = strings.TrimSpace(pattern)
+		// Ignore lines that are blank after trimming, and a negation marker
+		// with nothing after it (there is no pattern to apply)
+		if len(pattern) == 0 || pattern == "!" {
+			continue
+		}
 		// Ignore comments
 		if pattern[0] == '#' {
 			continue
